@@ -179,7 +179,8 @@ def applyOpS (a : Store × Sl) : Op → Store × Sl
     `clients=<n|d|s<k>>,… fail=<ids|-> kind=<error kind> tfail=<d|s<k>,…|-> st=<status> defs=<ids|->+<spare> new=c<k>:<ids|-|D>: op ; op …`
     (`defs` = a caller-owned slice of interceptor pointers with `spare` unused capacity; `D` = "pass that slice": `new=c0:D` is
     `NewSimpleHTTPWithClientAndInterceptors(client, defaults...)`.  Several instances may live in one case: `inst c<k> <ids|D>`
-    creates another one with the WithClient constructor, `instd` / `insta` with `NewSimpleHTTP()` / `NewSimpleAPI(url)` (a
+    creates another one with the WithClient constructor (`retr <n|d|s<k>>` = take the instance's OWN client with
+    `GetHTTPClient()`, replace its `Transport`, hand it back with `SetHTTPClient`), `instd` / `insta` with `NewSimpleHTTP()` / `NewSimpleAPI(url)` (a
     fresh `&http.Client{}` each); an op prefixed `@<j>` addresses instance j (default 0).  Generated cases never hand the
     same client to two instances — that is outside the property.)
     (`kind` = what sort of error failing interceptors / transports return — plain, net.Error Temporary/Timeout,
@@ -287,6 +288,10 @@ def runOpOn (fail : List Nat) (tfail : List String) (st : St) (j : Nat) (toks : 
     | ["set", c] =>
       let (s, cs) := setHTTPClient (i.sh st) st.cs (clientIdx c)
       ({ setInst st j { i with s := s } with cs := cs }, "nil")
+    | ["retr", t] =>
+      -- the usual way to change the underlying transport: c := GetHTTPClient(); c.Transport = t; SetHTTPClient(c)
+      let (s, cs) := setHTTPClient (i.sh st) (st.cs.set i.s.client (parseTr t)) i.s.client
+      ({ setInst st j { i with s := s } with cs := cs }, "nil")
     | ["req", _verb] => (st, showResult (clientDo (behOf fail) (tfOf tfail) (i.sh st) st.cs []))
     | _ => (st, "bad-op")
 
@@ -369,6 +374,7 @@ def judge (line impl : String) : String :=
       | ["remd"] => upd (Spec.book l [.rem defs])
       | ["clear"] => upd []
       | ["set", _] => upd l
+      | ["retr", _] => upd l
       | ["req", _] =>
         let exp := specEvents fail l
         if obsMatches tfail exp oo.2 then acc
